@@ -149,6 +149,10 @@ static ASMJIT_INLINE bool is_zmm_or_m512(const Operand_& op) noexcept {
   return op.is_vec512() || (op.is_mem() && op.as<Mem>().size() == 64);
 }
 
+static ASMJIT_INLINE bool is_gp_address_reg_type(RegType reg_type) noexcept {
+  return reg_type == RegType::kGp16 || reg_type == RegType::kGp32 || reg_type == RegType::kGp64;
+}
+
 static ASMJIT_INLINE bool check_op_sig(const InstDB::OpSignature& op, const InstDB::OpSignature& ref, bool& imm_out_of_range) noexcept {
   // Fail if operand types are incompatible.
   InstDB::OpFlags common_flags = op.flags() & ref.flags();
@@ -264,6 +268,7 @@ static ASMJIT_FAVOR_SIZE Error validate(InstDB::Mode mode, const BaseInst& inst,
   InstDB::OpFlags combined_op_flags = InstDB::OpFlags::kNone;
   RegMask combined_reg_mask = 0;
   const Mem* mem_op = nullptr;
+  RegType mem_addr_type = RegType::kNone;
 
   for (i = 0; i < op_count; i++) {
     const Operand_& op = operands[i];
@@ -470,6 +475,19 @@ static ASMJIT_FAVOR_SIZE Error validate(InstDB::Mode mode, const BaseInst& inst,
 
           // Only used for implicit memory operands having 'seg:[reg]' form, so clear it.
           reg_mask = 0;
+        }
+
+        // There is only one address size per instruction - all memory operands (MOVS, CMPS, MOVDIR64B, ENQCMD) have to
+        // use general purpose registers of the same size.
+        if (!m.is_reg_home()) {
+          RegType addr_type = is_gp_address_reg_type(base_type) ? base_type : is_gp_address_reg_type(index_type) ? index_type : RegType::kNone;
+
+          if (addr_type != RegType::kNone) {
+            if (ASMJIT_UNLIKELY(mem_addr_type != RegType::kNone && mem_addr_type != addr_type)) {
+              return make_error(Error::kInvalidAddress);
+            }
+            mem_addr_type = addr_type;
+          }
         }
 
         // 16-bit addressing has no SIB byte - only [BX|BP|SI|DI] and [BX|BP + SI|DI] (without a scale) can be encoded.
